@@ -121,6 +121,9 @@ func (n *Node) op(kind string, e Ev, do func() error) error {
 	if crashAfter {
 		c.crashNow(n, k, "after", kind)
 	}
+	// scheduler gate "after:<kind>": the call has taken effect but has not returned to the
+	// library yet (only armed for calls the library makes without holding its lock)
+	n.fsm.wait("after:" + kind)
 	return err
 }
 
